@@ -1,5 +1,6 @@
 (* C05  Fills execute only at the price the matching rule prescribes. *)
 From RQ Require Import Model.Num Model.Position Model.Matcher Proofs.NumFacts Proofs.MatcherFacts.
+From RQ Require Import Model.Broker Proofs.BrokerFacts.
 Open Scope Q_scope.
 
 Section C05.
@@ -49,7 +50,17 @@ Example C05_example :
   match_one g i bar bar bar false 0 o (fun _ _ _ => 5) (fun p => p * 2500) 100000 (fun _ => 0) = Filled 11 1000 0 true.
 Proof. vm_compute. reflexivity. Qed.
 
+(* which orders the broker hands to the matcher, when and with which flag: while the auction is on every call carries the auction flag (an order
+   resting since earlier in the auction waits for the bar), and the flag is set only on the first call of an order (new ids per submission) *)
+Theorem C05_auction_rule : forall fin ops, auction_calls_flagged (brun fin ops).
+Proof. exact auction_rule. Qed.
+Theorem C05_auction_flag_only_on_first_call : forall fin ops,
+  ok_ops fin {| bk_open := []; bk_auction := []; bk_final := []; bk_calls := [] |} ops -> flag_first (bk_calls (brun fin ops)).
+Proof. exact flag_only_on_first_call. Qed.
+
 Print Assumptions C05_reference.
+Print Assumptions C05_auction_rule.
+Print Assumptions C05_auction_flag_only_on_first_call.
 Print Assumptions C05_adverse.
 Print Assumptions C05_band.
 Print Assumptions C05_limit.
